@@ -4,6 +4,7 @@
   `cos sin tan : K → K` (no trigonometric identity is needed for any of them).
 -/
 import WR.C17.Spec
+import WR.Gen.C17Angles
 set_option linter.unusedSectionVars false
 namespace WR.Props.C17
 open WR.Gen.Matrix WR.C17
@@ -134,6 +135,40 @@ theorem svg_defaults (a : K) :
 /-- an affine map is determined by the matrix read off three points -/
 theorem matrixOf_apply (t : T K) : matrixOf (fun p => m_apply t p.1 p.2) = t := by
   cases t; simp only [matrixOf, m_apply, T.mk.injEq]; refine ⟨?_, ?_, ?_, ?_, ?_, ?_⟩ <;> grind
+
+/-! ## the regenerated angle-unit table (css/validation ANGLETORADIANS): exactly deg, grad, rad, turn,
+    float32 factors within 2⁻²² relative of 1 turn = 360 deg = 400 grad = 2π rad -/
+section Angles
+open WR.Gen.C17Angles
+
+/-- factor of a unit as a pair (numerator, exponent): value = num / 2^exp -/
+def factor? (u : String) : Option (Int × Nat) := (table.find? (·.1 == u)).map (·.2)
+
+/-- `a/2^ea` and `b/2^eb` agree within relative 2⁻²²: |a·2^eb − b·2^ea|·2²² ≤ |b|·2^ea -/
+def closeDyadic (a : Int × Nat) (b : Int × Nat) : Bool :=
+  (a.1 * 2 ^ b.2 - b.1 * 2 ^ a.2).natAbs * 2 ^ 22 ≤ (b.1 * 2 ^ a.2).natAbs
+
+def scale (k : Int) (a : Int × Nat) : Int × Nat := (k * a.1, a.2)
+
+/-- exactly the four CSS angle units are accepted -/
+theorem angle_units_exact : table.map (·.1) = ["deg", "grad", "rad", "turn"] := by decide
+
+/-- 1 rad is the unit -/
+theorem rad_is_one : factor? "rad" = some (1, 0) := by decide
+
+/-- 360 deg = 400 grad = 1 turn (within float32 rounding) -/
+theorem angle_unit_ratios :
+    (do let d ← factor? "deg"; let g ← factor? "grad"; let t ← factor? "turn"
+        pure (closeDyadic (scale 360 d) t && closeDyadic (scale 400 g) t)) = some true := by decide
+
+/-- 1 turn = 2π rad: 6.283185 < turn < 6.283186 -/
+theorem turn_is_two_pi :
+    (do let t ← factor? "turn"
+        pure (decide (6283185 * 2 ^ t.2 < t.1 * 1000000 ∧ t.1 * 1000000 < 6283186 * 2 ^ t.2))) = some true := by
+  decide
+
+
+end Angles
 
 /-! ## non-vacuity -/
 example : m_determinant ({ a := 2, b := 0, c := 0, d := 3, e := 1, f := 1 } : T Rat) ≠ 0 := by
